@@ -2,15 +2,19 @@
 C07 — type-checked invariants cannot fail at run time.
 
 * correspondence: `type_inference.infer_for_invariant` (verdict, number and kind of errors, the
-  whole `type_map`, the canonical strings) and the front end's `_ContractChecker` against the
-  Lean model (`Model/Expr/{Ty,Canon,Infer,TypeMap,Contract}.lean`) on
+  whole `type_map`, the canonical strings), the Python generator's verdict on the invariant
+  (`python/lib/_generate_verification._transpile_invariant`: inference + the transpiler's own check
+  of `len`) and the front end's `_ContractChecker` against the Lean model
+  (`Model/Expr/{Ty,Canon,Infer,TypeMap,Contract}.lean`); the decidable hypothesis `Decls.wfb` of the
+  theorems on the declarations of every symbol table; on
   - the corpus, - an enumerated, seed-independent stream (every expression form x {Optional,
   non-Optional} x every guard spelling in every position on a fixed small meta-model; guards on one
   access path with uses of another one: other root / member / index / list / method result; loop
-  variables in sibling and nested comprehensions), - the well-typed invariants of `mm.random_mm`
+  variables in sibling and nested comprehensions; `TYPING`: every branch of the typing rules of
+  operands, boolean contexts, call arguments and `in`), - the well-typed invariants of `mm.random_mm`
   models, their ill-typed mutants and type-directed "sloppy" random invariants;
-* direct oracle (independent of the Lean model): every invariant the real inferrer accepts is
-  evaluated as Python (`mm.eval_invariant_python`) on targeted type-conforming instances (every
+* direct oracle (independent of the Lean model): every invariant the real Python generator accepts
+  (inference and transpilation of the invariant succeed) is evaluated as Python (`mm.eval_invariant_python`) on targeted type-conforming instances (every
   subset of the Optional access paths the invariant mentions set to `None`, see
   `harness/c07_targets.py`; methods are stubs) and on ~18/50 random ones built from boundary values;
   any exception other than IndexError, or a non-bool result, is a failing input whose `sig` names the
@@ -89,6 +93,9 @@ def gen_Infer(repo: pathlib.Path) -> str:
                     names = _tuple_names(node.comparators[0])
                     if names and isinstance(node.left, ast.Attribute) and node.left.attr == "a_type":
                         tuples.setdefault(fn.name, []).append(sorted(names))
+                    elif names and all(isinstance(el, ast.Attribute) and isinstance(el.value, ast.Name) and el.value.id == "PrimitiveType" for el in node.comparators[0].elts):
+                        # `left_primitive in (PrimitiveType.INT, ...)`, `try_primitive_type(t) in (...)`
+                        tuples.setdefault(fn.name + ":prim", []).append(sorted(names))
 
     def uniq(name: str) -> List[str]:
         got = {tuple(t) for t in tuples.get(name, [])}
@@ -96,6 +103,27 @@ def gen_Infer(repo: pathlib.Path) -> str:
 
     idx = uniq("transform_index")
     rng = uniq("transform_for_range")
+    order = uniq("transform_comparison:prim")
+    isin = uniq("transform_is_in:prim")
+    # the errors appended by `infer_for_invariant` itself (the body of an invariant is a boolean)
+    body_sites = 0
+    for fn in mod.body:
+        if isinstance(fn, ast.FunctionDef) and fn.name == "infer_for_invariant":
+            for node in ast.walk(fn):
+                if (isinstance(node, ast.Call) and isinstance(node.func, ast.Attribute) and node.func.attr == "append"
+                        and isinstance(node.func.value, ast.Attribute) and node.func.value.attr == "errors"):
+                    body_sites += 1
+    # the Python transpiler: the primitive types whose length it computes (`transform_function_call`, `len`)
+    py = _parse(repo, "aas_core_codegen/python/transpilation.py")
+    py_len: List[str] = []
+    py_len_error = 0
+    for fn in ast.walk(py):
+        if isinstance(fn, ast.FunctionDef) and fn.name == "transform_function_call":
+            for node in ast.walk(fn):
+                if isinstance(node, ast.Compare) and len(node.ops) == 1 and isinstance(node.ops[0], ast.In) and isinstance(node.comparators[0], ast.Tuple):
+                    py_len = sorted(set(py_len) | set(_tuple_names(node.comparators[0])))
+                if isinstance(node, ast.Constant) and isinstance(node.value, str) and "We do not know how to compute the length" in node.value:
+                    py_len_error += 1
     # in _transform_add_or_sub the first two tuples are the operand checks
     arith = sorted(set(tuples.get("_transform_add_or_sub", [["?"]])[0]))
 
@@ -116,6 +144,16 @@ def gen_Infer(repo: pathlib.Path) -> str:
         "def indexTypes : List String := " + strs(idx),
         "def rangeTypes : List String := " + strs(rng),
         "def arithTypes : List String := " + strs(arith),
+        "",
+        "/-- primitive types (beneath constrained primitives) that can be ordered with each other as numbers; primitive",
+        "containers of `in`; errors appended by `infer_for_invariant` itself -/",
+        "def orderNumberTypes : List String := " + strs(order),
+        "def isInPrimContainers : List String := " + strs(isin),
+        f"def invariantBodySites : Nat := {body_sites}",
+        "",
+        "/-- the Python transpiler (`python/transpilation.py`): primitive types with a length, and its error about the others -/",
+        "def pyLenPrims : List String := " + strs(py_len),
+        f"def pyLenErrorSites : Nat := {py_len_error}",
         "",
         "end AasVerif.Gen.Infer",
         "",
@@ -173,6 +211,14 @@ def enc_inferred_type(t: Any) -> str:
     return ",".join(go(t))
 
 
+def enc_signature(f: Any) -> List[str]:
+    """Declared argument types (counted) and the return type of a verification function / method."""
+    toks = [str(len(f.arguments))]
+    for a in f.arguments:
+        toks += enc_decl_type(a.type_annotation)
+    return toks + enc_decl_type(f.returns)
+
+
 def enc_decls(symbol_table: Any) -> str:
     """What the inferrer consults, read off the REAL symbol table."""
     from aas_core_codegen import intermediate as I
@@ -184,7 +230,8 @@ def enc_decls(symbol_table: Any) -> str:
         if isinstance(t, I.Enumeration):
             toks += ["N", enc_text(str(t.name)), str(len(t.literals))] + [enc_text(str(l.name)) for l in t.literals]
         elif isinstance(t, I.ConstrainedPrimitive):
-            toks += ["P", enc_text(str(t.name)), _PRIM_TOK[t.constrainee.value]]
+            toks += ["P", enc_text(str(t.name)), _PRIM_TOK[t.constrainee.value], "1" if len(t.invariants) > 0 else "0",
+                     str(len(t.descendants))] + [enc_text(str(d.name)) for d in t.descendants]
         else:
             props = list(t.properties_by_name.items())
             meths = list(t.methods_by_name.items())
@@ -193,13 +240,13 @@ def enc_decls(symbol_table: Any) -> str:
                 toks += [enc_text(str(n))] + enc_decl_type(p.type_annotation)
             toks.append(str(len(meths)))
             for n, m_ in meths:
-                toks += [enc_text(str(n))] + enc_decl_type(m_.returns)
+                toks += [enc_text(str(n))] + enc_signature(m_)
             toks.append(str(len(t.descendants)))
             toks += [enc_text(str(d.name)) for d in t.descendants]
     fns = list(symbol_table.verification_functions)
     toks.append(str(len(fns)))
     for f in fns:
-        toks += [enc_text(str(f.name)), str(len(f.arguments))] + enc_decl_type(f.returns)
+        toks += [enc_text(str(f.name))] + enc_signature(f)
     consts = list(symbol_table.constants)
     toks.append(str(len(consts)))
     for c in consts:
@@ -226,6 +273,19 @@ _KINDS: List[Tuple[str, str]] = [
     (r"^Expected the index to be a non-None", "indexOptional"),
     (r"^Expected an index access on a list", "indexOnNonList"),
     (r"^Expected the index to be an integer", "indexNotInt"),
+    (r"^The ordering is only defined between", "cmpNotOrderable"),
+    (r"^Expected the container to be a list, a set", "containerNotContainer"),
+    (r"^Expected the member of a set to be hashable", "memberUnhashable"),
+    (r"^Expected the member to be of the same primitive type", "memberNotSamePrim"),
+    (r"^Expected the antecedent to be a boolean", "antecedentNotBool"),
+    (r"^Expected the consequent to be a boolean", "consequentNotBool"),
+    (r"^Expected the operand to be a boolean", "operandNotBool"),
+    (r"^Expected the value to be a boolean", "valueNotBool"),
+    (r"^Expected the body of an invariant to be a boolean", "bodyNotBool"),
+    (r"^Expected the argument to the function 'len' to be a non-None", "lenArgOptional"),
+    (r"^Expected exactly one argument to the function 'len'", "lenArgCount"),
+    (r"^Expected exactly \d+ arguments to the (function|method) ", "argCount"),
+    (r"^Expected the argument .* to the (function|method) .* to be ", "argNotPassable"),
     (r"^Expected the left operand to be a non-None", "leftOptional"),
     (r"^Expected the right operand to be a non-None", "rightOptional"),
     (r"^Expected the member to be a non-None", "isInMemberOptional|methodMemberOptional"),
@@ -368,6 +428,35 @@ class Real:
             types.append("!" if t is None else enc_inferred_type(t))
         return {"verdict": "ok", "type": types[0], "tmap": types}
 
+    def accepts_py(self, self_type: str, invariant: Any) -> Dict[str, Any]:
+        """The REAL Python generator on this invariant (`python/lib/_generate_verification._transpile_invariant`:
+        inference, then the transpiler): `{"ok": bool, "messages": [most underlying messages], "len_kind": bool}`."""
+        from aas_core_codegen.common import Identifier
+        from aas_core_codegen.intermediate import type_inference as TI
+        from aas_core_codegen.python.lib import _generate_verification as PV
+
+        env = TI.MutableEnvironment(parent=self.base)
+        env.set(Identifier("self"), TI.OurTypeAnnotation(our_type=self.our_type(self_type)))
+        try:
+            _, error = PV._transpile_invariant(invariant=invariant, symbol_table=self.st, environment=env)
+        except BaseException as e:  # noqa: B902
+            if isinstance(e, (KeyboardInterrupt, SystemExit)):
+                raise
+            return {"ok": False, "messages": [f"crash:{type(e).__name__}"], "len_kind": False}
+        if error is None:
+            return {"ok": True, "messages": [], "len_kind": False}
+        msgs: List[str] = []
+
+        def walk(err: Any) -> None:
+            if err.underlying:
+                for u in err.underlying:
+                    walk(u)
+            else:
+                msgs.append(str(err.message))
+
+        walk(error)
+        return {"ok": False, "messages": msgs, "len_kind": any(m.startswith("We do not know how to compute the length") for m in msgs)}
+
     def canon(self, invariant: Any) -> List[str]:
         from aas_core_codegen.intermediate import type_inference as TI
 
@@ -432,7 +521,9 @@ def fixed_mm() -> M.MM:
                    with_model_type=True, description="Represent an item.")
     special = M.Class("Special_item", bases=["Item"], props=[M.Prop("extra", P("str"))], description="Represent a special item.")
     kinds = [("n", P("int")), ("s", P("str")), ("b", P("bool")), ("fl", P("float")), ("by", P("bytes")),
-             ("e", R("Color")), ("c", R("Short_text")), ("it", R("Item")), ("its", L(R("Item")))]
+             ("e", R("Color")), ("c", R("Short_text")), ("it", R("Item")), ("its", L(R("Item"))),
+             # for the typing rules of operands, boolean contexts and call arguments (stream `TYPING`)
+             ("fg", R("Flag")), ("pt", R("Plain_text")), ("sp", R("Special_item")), ("sps", L(R("Special_item"))), ("strs", L(P("str")))]
     props = []
     for n, t in kinds:
         props.append(M.Prop(n, t))
@@ -445,7 +536,10 @@ def fixed_mm() -> M.MM:
         classes=[item, special, holder],
         enums=[M.Enum.of("Color", [("Red", "RED"), ("Green", "GREEN")], "Enumerate colors.")],
         constrained_primitives=[M.ConstrainedPrimitive("Short_text", "str", invariants=[
-            M.Invariant("The text is short.", M.Comparison(M.length(M.SELF), "<=", M.Constant(10)))], description="Represent a short text.")],
+            M.Invariant("The text is short.", M.Comparison(M.length(M.SELF), "<=", M.Constant(10)))], description="Represent a short text."),
+            # without invariants: a primitive can be passed for them
+            M.ConstrainedPrimitive("Flag", "bool", description="Represent a flag."),
+            M.ConstrainedPrimitive("Plain_text", "str", description="Represent a plain text.")],
         constants=[M.ConstantPrimitive("Limit", "int", 5, "Limit something."), M.ConstantPrimitive("Greeting", "str", "hi", "Greet.")],
         constant_sets=[M.ConstantSet("Words", "str", ["a", "b"], description="List words."),
                        M.ConstantSet("Primary", "Color", ["Red"], description="List primary colors.")],
@@ -453,6 +547,23 @@ def fixed_mm() -> M.MM:
             M.PatternFn.simple("is_word", "^[a-z]+$", description="Check the text.\n\n:param text: to be checked\n:returns: True if fine"),
             M.TranspilableFn("is_small", [M.Arg("value", P("int"))], P("bool"), [M.Return(M.Comparison(M.Name("value"), "<", M.Constant(10)))],
                              description="Check the value.\n\n:param value: to be checked\n:returns: True if fine"),
+        ] + [
+            # one function per kind of declared argument type; the bodies never fail on arguments of the declared types
+            M.TranspilableFn(name, [M.Arg(a, t) for a, t in args], P("bool"), [M.Return(body)],
+                             description=f"Check the {args[0][0]}.\n\n" + "".join(f":param {a}: to be checked\n" for a, _ in args) + ":returns: True if fine")
+            for name, args, body in [
+                ("takes_short", [("text", R("Short_text"))], M.Comparison(M.length(M.Name("text")), ">", M.Constant(0))),
+                ("takes_plain", [("text", R("Plain_text"))], M.Comparison(M.length(M.Name("text")), ">=", M.Constant(0))),
+                ("takes_item", [("item", R("Item"))], M.Comparison(M.Member(M.Name("item"), "count"), ">=", M.Constant(0))),
+                ("takes_special", [("item", R("Special_item"))], M.Comparison(M.length(M.Member(M.Name("item"), "extra")), ">=", M.Constant(0))),
+                ("takes_items", [("items", L(R("Item")))], M.Comparison(M.length(M.Name("items")), ">=", M.Constant(0))),
+                ("takes_opt", [("text", O(P("str")))], M.Or((M.IsNone(M.Name("text")), M.Comparison(M.length(M.Name("text")), ">=", M.Constant(0))))),
+                ("takes_color", [("color", R("Color"))], M.Comparison(M.Name("color"), "==", M.Member(M.Name("Color"), "Red"))),
+                ("takes_float", [("value", P("float"))], M.Comparison(M.Name("value"), ">", M.Constant(0.5))),
+                ("takes_two", [("text", P("str")), ("value", P("int"))], M.Comparison(M.length(M.Name("text")), ">", M.Name("value"))),
+                ("takes_flag", [("flag", P("bool"))], M.Name("flag")),
+                ("takes_bytes", [("data", P("bytes"))], M.Comparison(M.length(M.Name("data")), ">=", M.Constant(0))),
+            ]
         ],
     )
 
@@ -612,6 +723,63 @@ EXTRA: List[str] = [
 ]
 
 
+#: the typing rules of operands, boolean contexts and call arguments (the repairs of C07-F1 … F4): every branch of
+#: `orderable`, `isInCheck`, `isBool`, `checkArgs` / `passable` / `assignable`, `len`, on both sides (accepted / rejected)
+TYPING: List[str] = [
+    # ---- F1 ordering: numbers with numbers (int, float, length, constrained), str with str, bytes with bytes
+    "self.n < self.fl", "self.fl <= self.n", "len(self.s) >= self.fl", "self.n < len(self.its)", "len(self.s) > len(self.by)", "Limit < self.n",
+    "self.c < self.s", "self.s >= Greeting", "self.c <= self.c", "self.pt > self.c", "self.by < self.by", "self.by >= self.by", "self.it.scaled(1) < 1.5",
+    "self.it.label() < 'a'", "self.strs[0] < self.s", "all(x < 'b' for x in self.strs)", "1 < 2", "1.5 > 1", "'a' <= 'b'",
+    "self.s < 3", "3 > self.s", "self.s < self.by", "self.by < self.s", "self.b < self.n", "self.n >= self.b", "self.b <= self.b", "self.fg < self.fg", "True < 2",
+    "self.e < self.e", "self.e >= Color.Red", "self.it < self.it", "self.its <= self.its", "self.strs < self.strs", "Words > Words", "self.it.label < self.it.label",
+    "Color < Color", "self.n < self.c", "self.it.label() < 3", "all(x < 1 for x in self.strs)", "self.it.twin() < self.it", "len < len", "self.n < self.it.scaled",
+    # `==` / `!=` are defined between any two values
+    "self.s == 3", "self.it != self.its", "self.e == self.n", "Words == Primary", "self.b == self.n", "Color.Red != 'RED'", "self.by == self.s", "self.fl == self.n",
+    "self.it.label == self.it.label", "len == len", "self.it.label != 3", "is_word == len", "Color == Color", "self.os == 3", "self.s == self.os",
+    # ---- F2 boolean contexts
+    "not self.n", "not self.s", "not self.it", "not self.its", "not self.e", "not self.fl", "not self.by", "not len(self.s)", "not self.it.label()", "not (self.n > 0)",
+    "not self.fg", "not self.b", "not self.ob", "not is_word", "not Color",
+    "self.n and self.b", "self.b and self.n", "self.b and self.s and self.b", "self.b or self.n", "self.n or self.b", "self.it or self.b", "self.b and self.it.label()",
+    "self.fg and self.b", "self.b or self.fg", "self.fg or self.fg", "self.b and self.ob", "self.ob or self.b", "self.n and self.s",
+    "not self.n or self.b", "not self.b or self.n", "not self.b or self.s", "not self.b or self.ob", "not self.ob or self.b", "not self.fg or self.b", "not self.b or self.fg",
+    "not (self.ob is not None) or self.ob", "self.ob is None or self.ob", "self.ob is not None and self.ob", "self.ob is None or not self.ob", "self.ofg is None or self.ofg",
+    "not (self.n > 0) or self.its", "not self.it.label() or self.b",
+    "self.n", "self.s", "self.it", "self.ob", "self.b", "self.fg", "self.ofg", "len(self.s)", "self.it.label()", "self.it.twin()", "Limit", "Color.Red", "self.n + 1", "f'{self.n}'",
+    "is_word(self.s)", "is_small(self.n)", "self.its[0]", "self.strs", "self.fg == True", "all(self.fg for i in self.its)", "all(self.b for i in self.its)",
+    # ---- F3 call arguments: verification functions
+    "takes_short(self.c)", "takes_short(self.s)", "takes_short(self.pt)", "takes_short(self.oc)", "self.oc is None or takes_short(self.oc)", "takes_short('a')",
+    "takes_plain(self.pt)", "takes_plain(self.s)", "takes_plain('a')", "takes_plain(self.c)", "takes_plain(self.n)", "takes_plain(self.os)", "takes_plain(len(self.s))",
+    "takes_item(self.it)", "takes_item(self.sp)", "takes_item(self.oit)", "takes_item(self.its[0])", "takes_item(self.sps[0])", "takes_item(self.its)", "takes_item(self.e)",
+    "takes_item(self.it.twin())", "self.it.twin() is None or takes_item(self.it.twin())", "takes_item(self.n)", "takes_item(self.c)",
+    "takes_special(self.sp)", "takes_special(self.it)", "takes_special(self.sps[0])", "takes_special(self.osp)",
+    "takes_items(self.its)", "takes_items(self.sps)", "takes_items(self.oits)", "self.oits is None or takes_items(self.oits)", "takes_items(self.strs)", "takes_items(self.it)",
+    "takes_opt(self.os)", "takes_opt(self.s)", "takes_opt(self.c)", "takes_opt(self.oc)", "takes_opt(self.on)", "takes_opt(self.n)", "takes_opt(self.it.twin())",
+    "takes_color(self.e)", "takes_color(Color.Red)", "takes_color(Color)", "takes_color(self.s)", "takes_color(self.oe)", "takes_color(Primary)",
+    "takes_float(self.fl)", "takes_float(self.n)", "takes_float(1.5)", "takes_float(1)", "takes_float(len(self.s))", "takes_float(self.n + 1)", "takes_float(self.fl + 1.5)",
+    "takes_two(self.s, self.n)", "takes_two(self.n, self.s)", "takes_two(self.s, len(self.s))", "takes_two(self.s, self.fl)", "takes_two(self.os, self.on)", "takes_two(self.c, Limit)",
+    "takes_flag(self.b)", "takes_flag(self.fg)", "takes_flag(self.n > 0)", "takes_flag(self.n)", "takes_flag(self.ob)", "takes_flag(is_word(self.s))",
+    "takes_bytes(self.by)", "takes_bytes(self.s)", "takes_bytes(self.oby)",
+    "is_small(len(self.s))", "is_small(self.n + len(self.s))", "is_small(self.fl)", "is_small(self.c)", "is_word(self.c)", "is_word(self.pt)", "is_word(Greeting)", "is_word(Words)",
+    "is_word(is_word)", "is_word(len)", "is_word(self.it.label)", "is_word(self.it.label())", "is_word(f'{self.n}')", "is_small(Limit)",
+    # `len`: one argument, not None; the kind of the argument is the Python transpiler's business
+    "len(self.n) > 0", "len(self.it) > 0", "len(self.e) > 0", "len(Words) > 0", "len(self.b) > 0", "len(self.fl) > 0", "len(self.its) > 0", "len(self.by) > 0", "len(self.c) > 0",
+    "len(self.pt) > 0", "len(self.strs) > 0", "len(self.strs[0]) > 0", "len(Color) > 0", "len(len) > 0", "len(self.it.label) > 0", "len(self.it.label()) > 0", "len(self.it.twin()) > 0",
+    "len(f'{self.n}') > 0", "len(self.its[0]) > 0", "len(Greeting) > 0", "len(Limit) > 0", "len(self.oit) > 0", "self.oit is None or len(self.oit) > 0", "len(self.os) > 0",
+    "self.os is None or len(self.os) > 0", "len(self.oits) > 0", "not (self.oits is not None) or len(self.oits) > 0",
+    # methods
+    "self.it.scaled(1) > 0", "self.it.scaled() > 0", "self.it.scaled(1, 2) > 0", "self.it.scaled(self.s) > 0", "self.it.scaled(self.on) > 0", "self.on is None or self.it.scaled(self.on) > 0",
+    "self.it.scaled(len(self.s)) > 0", "self.it.scaled(self.fl) > 0", "self.it.scaled(self.n + 1) > 0", "self.it.scaled(self.it.scaled(1)) > 0", "self.it.label(1) == 'a'",
+    "self.it.twin(self.it) is None", "self.sp.scaled(2) > 0", "self.sp.scaled('a') > 0", "self.it.scaled(self.c) > 0", "self.it.scaled(Limit) > 0",
+    # ---- F4 membership
+    "self.it in self.its", "self.n in self.its", "self.its in self.its", "self.on in self.its", "self.it in self.oits", "self.oits is None or self.it in self.oits",
+    "Color.Red in self.its", "self.it.label in self.its", "len in self.its", "self.s in self.strs", "self.n in self.strs", "self.sp in self.its", "self.it in self.sps",
+    "self.s in Words", "self.n in Words", "self.c in Words", "self.pt in Words", "self.e in Primary", "self.it in Primary", "self.its in Words", "self.strs in Words", "Words in Words",
+    "Color in Primary", "len in Words", "self.it.label in Words", "self.b in Words", "self.by in Words", "self.it.twin() in Primary", "self.os in Words", "Color.Red in Primary",
+    "self.s in self.s", "'a' in self.c", "self.c in self.s", "self.pt in self.c", "self.n in self.s", "self.by in self.s", "self.s in self.by", "self.by in self.by", "self.n in self.by",
+    "self.e in self.s", "self.s in Greeting", "self.s in Limit", "self.s in self.n", "self.s in self.it", "self.s in self.e", "Color.Red in Color", "self.s in len",
+    "self.s in self.it.label()", "self.s in self.it.label", "self.s in self.b", "self.s in self.fl", "self.it in self.it", "self.s in f'{self.n}'", "self.s in self.strs[0]",
+]
+
 #: guard on one access path G, use of another path U (after seeded change C07-1).  `M` / `M2`: two Optional members of
 #: the same type; `pre`: what has to be known before G and U can be written at all.
 CHAIN_PAIRS: List[Tuple[str, str, str, str]] = [
@@ -767,6 +935,8 @@ def enumerated_invariants() -> List[Tuple[str, str]]:
         out.append((f"{kind}|{use}|nonopt-guarded", f"not (self.{kind} is not None) or ({use.replace('X', 'self.' + kind)})"))
     for k, text in enumerate(EXTRA):
         out.append((f"extra|{k}", text))
+    for k, text in enumerate(TYPING):
+        out.append((f"typing|{k}", text))
     return out
 
 
@@ -1106,6 +1276,23 @@ def mutants_of(model: M.MM, cls: str, e: Any, rng: random.Random) -> List[Tuple[
     replace_once(lambda n: isinstance(n, M.Constant) and isinstance(n.value, int) and not isinstance(n.value, bool), lambda n: M.Constant("a"), "int-to-str-constant")
     replace_once(lambda n: isinstance(n, M.Constant) and isinstance(n.value, str), lambda n: M.Constant(3), "str-to-int-constant")
     replace_once(lambda n: isinstance(n, M.Constant) and isinstance(n.value, int) and not isinstance(n.value, bool), lambda n: M.Constant(1.5), "int-to-float-constant")
+    # ---- the typing rules of operands, boolean contexts and call arguments (repairs of C07-F1 … F4)
+    if props:
+        some = lambda: M.prop(rng.choice(props).name)  # noqa: E731 - any property: mostly of the wrong type
+        replace_once(lambda n: isinstance(n, M.And) and len(n.values) >= 2, lambda n: M.And(n.values[:-1] + (some(),)), "and-operand-any-property")
+        replace_once(lambda n: isinstance(n, M.Or) and len(n.values) >= 2, lambda n: M.Or((some(),) + n.values[1:]), "or-operand-any-property")
+        replace_once(lambda n: isinstance(n, M.Implication), lambda n: M.Implication(n.antecedent, some()), "consequent-any-property")
+        replace_once(lambda n: isinstance(n, M.Implication), lambda n: M.Implication(some(), n.consequent), "antecedent-any-property")
+        replace_once(lambda n: isinstance(n, M.Not), lambda n: M.Not(some()), "not-any-property")
+        replace_once(lambda n: isinstance(n, M.IsIn), lambda n: M.IsIn(n.member, some()), "isin-container-any-property")
+        replace_once(lambda n: isinstance(n, M.IsIn), lambda n: M.IsIn(some(), n.container), "isin-member-any-property")
+        replace_once(lambda n: isinstance(n, M.Comparison), lambda n: M.Comparison(some(), "<", n.right), "ordering-left-any-property")
+        replace_once(lambda n: isinstance(n, M.Comparison), lambda n: M.Comparison(n.left, ">=", some()), "ordering-right-any-property")
+        replace_once(lambda n: isinstance(n, M.FunctionCall) and len(n.args) >= 1, lambda n: M.FunctionCall(n.name, (some(),) + tuple(n.args[1:])), "call-with-any-property")
+        replace_once(lambda n: isinstance(n, M.MethodCall), lambda n: M.MethodCall(n.member, tuple(n.args) + (some(),)), "method-extra-argument")
+        replace_once(lambda n: isinstance(n, M.MethodCall) and len(n.args) >= 1, lambda n: M.MethodCall(n.member, tuple(n.args[1:])), "method-missing-argument")
+    replace_once(lambda n: isinstance(n, M.Comparison) and n.op in ("==", "!="), lambda n: M.Comparison(n.left, "<=", n.right), "equality-to-ordering")
+    replace_once(lambda n: isinstance(n, M.Comparison), lambda n: n.left, "comparison-to-its-left-operand")
     # call shapes (kept valid for the front end's argument-count check)
     replace_once(lambda n: isinstance(n, M.FunctionCall) and len(n.args) == 1, lambda n: M.FunctionCall(n.name, (M.Constant(1),)), "call-with-int")
     replace_once(lambda n: isinstance(n, M.Name) and n.identifier not in ("self",), lambda n: M.Name("Unknown_name"), "unknown-name")
@@ -1165,7 +1352,7 @@ class Instances:
         # implementation-specific methods: a stub that returns a fixed value of the declared type
         for m_ in c07_targets.all_methods(self.m, name):
             if m_.name not in out:
-                out[m_.name] = c07_targets.Method(None if m_.returns is None else self.value(m_.returns, depth, none_bias), self.env)
+                out[m_.name] = c07_targets.Method(None if m_.returns is None else self.value(m_.returns, depth, none_bias), self.env, [a.type for a in m_.args])
         return out
 
     def subject(self, owner: str, k: int) -> Any:
@@ -1186,7 +1373,7 @@ def rule_of(exc: BaseException, tb: List[traceback.FrameSummary]) -> str:
         return "C07:none-deref"
     if inside_function:
         return "C07:unchecked:call-argument-types"
-    if isinstance(exc, TypeError) and "NoneType" in msg and "has no len()" not in msg and "expected string or bytes-like" not in msg:
+    if isinstance(exc, TypeError) and "NoneType" in msg and "has no len()" not in msg and "expected string or bytes-like" not in msg and not msg.startswith("argument of method"):
         # `None` reached an operator: a non-None requirement of the inferrer is gone (len(None) / match(p, None) are
         # call arguments, which the inferrer never checked: C07-F3)
         op = "comparison" if "not supported between" in msg else "iteration" if "object is not iterable" in msg else \
@@ -1196,7 +1383,7 @@ def rule_of(exc: BaseException, tb: List[traceback.FrameSummary]) -> str:
     if isinstance(exc, TypeError):
         if "not supported between instances" in msg:
             return "C07:unchecked:comparison-operand-types"
-        if "has no len()" in msg or "positional argument" in msg or "expected string or bytes-like" in msg:
+        if "has no len()" in msg or "positional argument" in msg or "expected string or bytes-like" in msg or msg.startswith("argument of method"):
             return "C07:unchecked:call-argument-types"
         if "is not iterable" in msg or "requires string as left operand" in msg or "unhashable" in msg or "a bytes-like object is required" in msg:
             return "C07:unchecked:isin-operand-types"
@@ -1282,7 +1469,14 @@ def run_batch(ctx: Ctx, b: Batch, with_model: bool, with_oracle: bool, n_instanc
         reqs.append(f"infer {real.decls} {enc_text(c.owner)} {wire}")
         reqs.append(f"canon {wire}")
         reqs.append(f"contract {real.decls} {wire}")
+        reqs.append(f"accept {real.decls} {enc_text(c.owner)} {wire}")
+    reqs.append(f"wf {real.decls}")
     answers = ctx.model(reqs) if with_model else []
+    if with_model:
+        ctx.hit("decls-wf:" + str(answers[-1]))
+        if answers[-1] != "1":
+            # the hypothesis `Decls.WF` of the theorems does not hold of the declarations of a REAL symbol table
+            ctx.disagree("decls-wf", {"batch": b.name, "source": b.source[:4000]}, "a symbol table of the front end", f"Decls.wfb = {answers[-1]}")
     inst = Instances(full, random.Random(ctx.rng.getrandbits(32)))
     targets = c07_targets.Targets(full)
     subjects: Dict[Tuple[str, int], Any] = {}
@@ -1300,11 +1494,37 @@ def run_batch(ctx: Ctx, b: Batch, with_model: bool, with_oracle: bool, n_instanc
         def witness(c: Case = c) -> Dict[str, Any]:
             return {"source": b.source if len(b.cases) <= 3 else mm.render(attach(b.model, [c])), "owner": c.owner, "description": c.description}
 
+        # the Python generator's verdict on an invariant that passed the inference (the transpiler's own check of `len`)
+        py = real.accepts_py(c.owner, inv) if out["verdict"] == "ok" else None
+        if py is not None:
+            ctx.hit("python-generator:" + ("accepted" if py["ok"] else "len-kind" if py["len_kind"] else "other-rejection"))
+            if not py["ok"] and not py["len_kind"]:
+                ctx.note(f"python transpiler rejects `{src}`: {py['messages'][:2]}")
         if with_model:
-            a_inf, a_can, a_con = answers[3 * k], answers[3 * k + 1], answers[3 * k + 2]
+            a_inf, a_can, a_con, a_acc = answers[4 * k], answers[4 * k + 1], answers[4 * k + 2], answers[4 * k + 3]
             ctx.traces_validated += 1
             if not model_answer_agrees(out, a_inf):
                 ctx.disagree("infer:" + c.stream, dict(witness(), invariant=src, label=c.label), out, a_inf)
+            # `acceptsPy` (inference + the transpiler's check of `len`) and the side conditions of the theorem
+            acc_parts = a_acc.split("|")
+            if len(acc_parts) != 3:
+                ctx.disagree("accept:" + c.stream, dict(witness(), invariant=src), "a verdict", a_acc)
+            else:
+                verdict_m, nofn, wf_ = acc_parts
+                if wf_ != "1":
+                    ctx.disagree("accept:" + c.stream, dict(witness(), invariant=src), "a parsed expression (and/or have operands)", a_acc)
+                if py is not None and not py["ok"] and not py["len_kind"]:
+                    # rejected by a check of the transpiler that is not about types (e.g. the name `len` used as a value):
+                    # not modelled, and not accepted — nothing to compare, nothing to evaluate
+                    ctx.hit("accept:transpiler-other-rejection")
+                elif py is not None:
+                    want_ok = not py["len_kind"]
+                    if verdict_m.startswith("ok") != want_ok or (not want_ok and set(verdict_m[4:].split(";")) != {"lenKind"}):
+                        ctx.disagree("accept:" + c.stream, dict(witness(), invariant=src, label=c.label), {"inferrer": "ok", "python transpiler": py["messages"][:3]}, a_acc)
+                    if py["ok"]:
+                        ctx.hit("theorem:" + ("covered" if nofn == "1" else "function-used-as-value"))
+                elif verdict_m.startswith("ok"):
+                    ctx.disagree("accept:" + c.stream, dict(witness(), invariant=src, label=c.label), out, a_acc)
             # canonical strings: equality classes always, the strings themselves when no string constant is involved
             from harness.core import dec_list
 
@@ -1325,7 +1545,7 @@ def run_batch(ctx: Ctx, b: Batch, with_model: bool, with_oracle: bool, n_instanc
                 # the model loaded, so the real contract checker found nothing
                 ctx.disagree("contract:" + c.stream, dict(witness(), invariant=src), 0, a_con)
         # ---- the direct oracle
-        if with_oracle and out["verdict"] == "ok":
+        if with_oracle and py is not None and py["ok"]:
             if has_impl_specific_call(full, c.expr):
                 ctx.hit("oracle:skipped-implementation-specific")
                 continue
@@ -1427,7 +1647,10 @@ def enumerated_batches() -> Tuple[List[Batch], List[Tuple[str, str]]]:
             continue
         cases.append(Case("Holder", f"Enumerated {k}: {label}.", e, "enumerated", label))
     # constrained primitive and subclass contexts
-    for k, text in enumerate(["len(self) > 0", "self == 'a'", "self.x > 0", "self is None", "is_word(self)", "self < 3", "self(1)", "Limit(1)", "not self", "self + 1 > 0"]):
+    for k, text in enumerate(["len(self) > 0", "self == 'a'", "self.x > 0", "self is None", "is_word(self)", "self < 3", "self(1)", "Limit(1)", "not self", "self + 1 > 0",
+                              # the front end does not count the arguments of calls in the invariants of constrained primitives: the inferrer does
+                              "len() > 0", "len(self, self) > 0", "is_word()", "is_word(self, self)", "is_small(self)", "takes_short(self)", "takes_plain(self)", "takes_two(self)",
+                              "takes_two(self, len(self))", "takes_two(self, 1, 2)", "self < 'a'", "self in self", "self in Words", "'a' in self", "self", "self and self", "len(self)"]):
         e = parse_or_none(text)
         if e is not None:
             cases.append(Case("Short_text", f"Enumerated cp {k}.", e, "enumerated", f"cprim|{text}"))
@@ -1529,7 +1752,10 @@ def run_witness(ctx: Ctx, w: Dict[str, Any], with_model: bool) -> Dict[str, Any]
     if w.get("end_to_end", False):
         r = mm.generate("python", w["source"], ctx.scratch() / f"gen{len(res)}{abs(hash(w['description'])) % 10000}")
         res["generate_python_rc"] = r.rc
-    if out["verdict"] == "ok" and "instance" in w:
+    py = real.accepts_py(w["owner"], inv) if out["verdict"] == "ok" else None
+    if py is not None:
+        res["python_transpiler"] = py
+    if py is not None and py["ok"] and "instance" in w:
         model = model_from_source(loaded.symbol_table, w)
         inv_m = M.Invariant(w["description"], mm.expr_from_project_tree(inv.body))
         cls_, sig, detail = evaluate(model, w["owner"], inv_m, unshow_instance(model, w["instance"]))
@@ -1586,8 +1812,8 @@ def _run(ctx: Ctx, with_model: bool) -> None:
         if o and o["sig"] is not None:
             ctx.fail({"witness": w.get("id"), "source": w["source"], "owner": w["owner"], "description": w["description"], "instance": w["instance"]},
                      f"accepted invariant of witness {w.get('id')}: {o['detail']}", o["sig"])
-        if w.get("end_to_end") and res.get("generate_python_rc") != 0 and res["inferrer"]["verdict"] == "ok":
-            ctx.note(f"corpus {w.get('id')}: python generator rc {res.get('generate_python_rc')} although the inferrer accepts")
+        if w.get("end_to_end") and res.get("generate_python_rc") != 0 and res.get("python_transpiler", {}).get("ok"):
+            ctx.note(f"corpus {w.get('id')}: python generator rc {res.get('generate_python_rc')} although the invariant is transpiled")
     n_inst = ctx.n(18, 50)
     batches, by_contract = enumerated_batches()
     for b in batches:
@@ -1601,12 +1827,16 @@ def _run(ctx: Ctx, with_model: bool) -> None:
 def correspond(ctx: Ctx) -> None:
     ctx.extra_cov["rule"] = (
         "one evaluation = one invariant inferred by the real _Inferrer (with self typed by its owner) and by the Lean model: verdict, number "
-        "and kind of errors, the whole type_map, the canonical strings of all sub-expressions; streams: corpus, enumerated (every expression "
-        "form x Optional/non-Optional x 69 guard spellings, 28 guard-path/use-path pairs x 9 spellings, 115 loop-variable invariants on a fixed model, seed independent), invariants of mm.random_mm models, their "
+        "and kind of errors, the whole type_map, the canonical strings of all sub-expressions, the verdict of the real Python transpiler on the invariant "
+        "(its check of the argument of len) against acceptsPy; streams: corpus, enumerated (every expression "
+        "form x Optional/non-Optional x 69 guard spellings, 28 guard-path/use-path pairs x 9 spellings, 115 loop-variable invariants, ~400 invariants for every branch "
+        "of the typing rules of ordering comparisons / boolean contexts / call arguments / membership on a fixed model, seed independent), invariants of mm.random_mm models, their "
         "single-edit mutants, type-directed sloppy random invariants, one-invariant models for the front end's argument-count check; "
         "distinct by (model, owner, invariant source)"
     )
     ctx.assumptions.append("C07: Python semantics of the invariant language (Model/Expr/Eval.lean) is validated by C08's correspondence, not verified")
+    ctx.assumptions.append("C07: KeySound canon (sub-expressions with equal canonical strings have equal values) is validated on every invariant (stream canon-injective), not proved")
+    ctx.assumptions.append("C07: the theorem `sound` excludes invariants that use a function / bound method as a first-class value (noFnValuesB = 0, counted as theorem:function-used-as-value); the oracle evaluates them in CPython")
     _run(ctx, True)
 
 
